@@ -196,6 +196,7 @@ def gen_case(rng, idx: int, base: str = ""):
         rng.shuffle(numbers)
     existing = list(spec["files"]) + list(spec["dirs"])
     overridden = set()
+    twice, hiders = set(), set()
     for fname in rng.sample([".Links", ".names", ".zlinks", ".alinks"], 0 if bare else rng.randrange(0, 4)):
         blocks = []
         for _ in range(rng.randrange(1, 5)):
@@ -203,20 +204,32 @@ def gen_case(rng, idx: int, base: str = ""):
             r = rng.random()
             if r < 0.45 and existing:
                 n = rng.choice(existing)
+                again = None
                 if n in overridden:
-                    continue
-                overridden.add(n)  # one override per entry: several are order-of-files semantics, see C07
+                    # one override per entry (several that all show are order-of-files semantics) -- except where one
+                    # of the two hides the entry: hidden is hidden, whichever block comes first and whatever the other sets
+                    if n in twice or rng.random() < 0.5:
+                        continue
+                    twice.add(n)
+                    again = "rename" if n in hiders else "hide"
+                overridden.add(n)
                 lines.append("Path=./" + n + ("/" if n in spec["dirs"] and rng.random() < 0.6 else ""))
                 opts = []
-                if rng.random() < 0.6:
+                if rng.random() < 0.6 or again == "rename":
                     opts.append("Name=" + word() + " renamed")
                 if rng.random() < 0.4 and numbers:
                     opts.append("Numb=%d" % numbers.pop())
-                if rng.random() < 0.25:
+                if again == "hide":
+                    opts.append("Type=" + rng.choice(["X", "-"]))
+                elif rng.random() < 0.25 and again is None:
                     opts.append("Type=" + rng.choice(["X", "X", "-", "9", "0"]))
+                if any(o in ("Type=X", "Type=-") for o in opts):
+                    hiders.add(n)
                 if rng.random() < 0.3:
                     opts.append(rng.choice(["Abstract=Link abstract for " + n,
-                                            "Abstract=first part\\\nsecond part\\\nthird part"]))
+                                            "Abstract=first part\\\nsecond part\\\nthird part",
+                                            # continuation lines are text, whatever they begin with
+                                            "Abstract=Top three this week:\\\n#1 first\\\n#2 second\\\nName=not a field"]))
                 rng.shuffle(opts)
                 lines += opts
                 rng.shuffle(lines)
@@ -246,7 +259,8 @@ def gen_case(rng, idx: int, base: str = ""):
                 if rng.random() < 0.4 and numbers:
                     lines.append("Numb=%d" % numbers.pop())
                 if rng.random() < 0.25:
-                    lines.append("Abstract=About " + name)
+                    lines.append(rng.choice(["Abstract=About " + name, "Abstract=About " + name,
+                                             "Abstract=Ranking:\\\n# 1 " + name + "\\\n#2 the rest"]))
                 rng.shuffle(lines)
             # 'Numb=' cannot be the last line of a link (manual)
             if lines and lines[-1].startswith("Numb=") and len(lines) > 1:
